@@ -557,6 +557,17 @@ def check_losses(ctx, pg, k, mu):
         g = float(norm.compute(k, mu))
         if not close(g, w, 1e-12, 1e-300):
             ctx.violation(f'loss:{name}', mode='losses', observed=k.tolist(), modelled=mu.tolist(), expected=w, returned=g)
+    # correspondence with the Lean model of the norms (PGModel/Loss.lean, driver command `loss`; theorems: PGProofs/LossThm.lean):
+    # the floats are dyadic rationals, the model's value is the exact norm of exactly these vectors
+    if len(k) == len(mu) and len(k) > 0 and np.all(np.isfinite(k)) and np.all(np.isfinite(mu)):
+        a, b = C.rlist(C.frac(float(x)) for x in k), C.rlist(C.frac(float(x)) for x in mu)
+        for kind, real in (('l1', float(pg.L1Norm().compute(k, mu))), ('linf', float(pg.LInfNorm().compute(k, mu))),
+                           ('sql2', float(pg.L2Norm().compute(k, mu)) ** 2)):
+            line = f'loss {kind} {a} {b}'
+            model = C.parse_rat(C.driver().ask(line))
+            if not close(real, float(model), 1e-12, 1e-300):
+                ctx.corr_break('loss-norm', request=line, kind=kind, model=C.rs(model), model_float=float(model), real=real)
+        ctx.count('loss-norm-model')
     ctx.count('loss-functions')
 
 
